@@ -34,7 +34,30 @@ def both(*fs):
 
 C, PY, PB, PL, SC = ('lib/check/msgformat/c.py', 'lib/check/msgformat/python.py', 'lib/check/msgformat/pybrace.py', 'lib/check/msgformat/perlbrace.py', 'lib/strformat/c.py')
 TG = 'lib/tags.py'
+GT = 'lib/gettext.py'
 TIES = {
+ 'gettextpf': {
+  'translators': ['gettextpf'], 'module': 'I18n.Props.C07Tie', 'tests': ['tests/test_gettext.py'],
+  'edits': {
+   'pf-strict-start-dropped': ed(GT, ("        if match.start() != 0:\n            raise PluralFormsSyntaxError\n", "")),
+   'pf-strict-end-dropped': ed(GT, ("        if match.end() != len(s):\n            raise PluralFormsSyntaxError\n", "")),
+   'pf-strict-start-eq': ed(GT, ("        if match.start() != 0:", "        if match.start() == 0:")),
+   'pf-lax-junk-swapped': ed(GT, ("        ljunk = s[:match.start()]\n        rjunk = s[match.end():]", "        ljunk = s[match.end():]\n        rjunk = s[:match.start()]")),
+   'pf-lax-return-order': ed(GT, ("        return (n, expr, ljunk, rjunk)", "        return (n, expr, rjunk, ljunk)")),
+   'pf-int-of-group-2': ed(GT, ("    n = int(match.group(1), 10)", "    n = int(match.group(2), 10)")),
+   'pf-expr-of-group-1': ed(GT, ("    expr = parse_plural_expression(match.group(2))", "    expr = parse_plural_expression(match.group(1))")),
+   'pf-no-match-silent': ed(GT, ("    if match is None:\n        raise PluralFormsSyntaxError\n    n = int", "    if match is None:\n        raise ValueError\n    n = int")),
+   'pf-regex-leading-zero': ed(GT, ("nplurals=([1-9][0-9]*);", "nplurals=([0-9]+);")),
+   'pf-default-lax': ed(GT, ("def parse_plural_forms(s, *, strict=True):", "def parse_plural_forms(s, *, strict=False):")),
+   'pf-expr-error-not-syntax': ed(GT, ("class PluralExpressionSyntaxError(PluralFormsSyntaxError):", "class PluralExpressionSyntaxError(Exception):")),
+   # behaviour-preserving
+   'bp-rename': ed(GT, ("    match = _parse_plural_forms(s)\n    if match is None:\n        raise PluralFormsSyntaxError\n    n = int(match.group(1), 10)\n    expr = parse_plural_expression(match.group(2))\n    if strict:\n        if match.start() != 0:\n            raise PluralFormsSyntaxError\n        if match.end() != len(s):\n            raise PluralFormsSyntaxError\n        return (n, expr)\n    else:\n        ljunk = s[:match.start()]\n        rjunk = s[match.end():]\n        return (n, expr, ljunk, rjunk)",
+                           "    m = _parse_plural_forms(s)\n    if m is None:\n        raise PluralFormsSyntaxError\n    count = int(m.group(1), 10)\n    tree = parse_plural_expression(m.group(2))\n    if strict:\n        if m.start() != 0:\n            raise PluralFormsSyntaxError\n        if m.end() != len(s):\n            raise PluralFormsSyntaxError\n        return (count, tree)\n    else:\n        before = s[:m.start()]\n        after = s[m.end():]\n        return (count, tree, before, after)")),
+   'bp-not-strict-first': ed(GT, ("    if strict:\n        if match.start() != 0:\n            raise PluralFormsSyntaxError\n        if match.end() != len(s):\n            raise PluralFormsSyntaxError\n        return (n, expr)\n    else:\n        ljunk = s[:match.start()]\n        rjunk = s[match.end():]\n        return (n, expr, ljunk, rjunk)",
+                                     "    if not strict:\n        ljunk = s[:match.start()]\n        rjunk = s[match.end():]\n        return (n, expr, ljunk, rjunk)\n    if match.start() != 0:\n        raise PluralFormsSyntaxError\n    if match.end() != len(s):\n        raise PluralFormsSyntaxError\n    return (n, expr)")),
+   'bp-comments': ed(GT, ("    match = _parse_plural_forms(s)\n", "    # leftmost declaration:\n    match = _parse_plural_forms(s)\n")),
+   'bp-end-test-first': ed(GT, ("        if match.start() != 0:\n            raise PluralFormsSyntaxError\n        if match.end() != len(s):\n            raise PluralFormsSyntaxError\n", "        if match.end() != len(s):\n            raise PluralFormsSyntaxError\n        if match.start() != 0:\n            raise PluralFormsSyntaxError\n")),
+  }},
  'tagsfmt': {
   'translators': ['tagsfmt'], 'module': 'I18n.Props.C02Tie', 'tests': ['tests/test_tags.py'],
   'edits': {
